@@ -14,6 +14,11 @@ class WorkerDies(BaseException):
     """not an Exception: the worker loop does not catch it, the process dies"""
 
 
+class WorkerKilled9(BaseException):
+    """the worker is killed by signal 9 from outside (OOM killer, kill -9): the in-process contexts end the 'process'
+    with exit status -9 when this propagates; really spawned workers send themselves SIGKILL instead"""
+
+
 class TwoArgError(Exception):
     """an exception whose constructor takes two arguments but passes one message to Exception: it pickles, but the
     pickle cannot be loaded again (a common shape of hand-written exception classes)"""
@@ -134,6 +139,12 @@ def process_item(item, *sketches, side=None, **kwargs):
         raise OSError(5, "Input/output error")
     if mode == "die":
         raise WorkerDies(f"worker dies on item {item['idx']}")
+    if mode == "kill9":
+        if os.environ.get("VF_REAL_SPAWN") == "1":
+            import signal
+
+            os.kill(os.getpid(), signal.SIGKILL)
+        raise WorkerKilled9(f"worker killed by signal 9 on item {item['idx']}")
     if mode == "exit":
         os._exit(3)
     apply_item(item, sketches)
@@ -157,6 +168,11 @@ def process_item(item, *sketches, side=None, **kwargs):
 
         return {"i64": np.int64, "u32": np.uint32, "u8": np.uint8, "i32": np.int32, "u64": np.uint64}[rt](item["ret"])
     return item["ret"]
+
+
+def process_item_opts(item, *sketches, **opts):
+    """same as process_item_kw, but the options arrive through a **opts catch-all"""
+    return process_item(item, *sketches, side=opts.get("side")) + opts.get("bonus", 0)
 
 
 def process_item_kw(item, *sketches, bonus=0, side=None):
